@@ -719,7 +719,13 @@ func (h *SexpHash) FillHashFromShadow(env *Zlisp, src interface{}) error {
 	for i, det := range h.DetOrder {
 		_ = i
 		//Q("\n looking at det for %s; %v-th entry in h.DetOrder\n", det.FieldJsonTag, i)
-		goField := vaSrc.Field(det.FieldNum)
+		// det.FieldNum counts inside the struct that declares the
+		// field; for a field promoted from an embedded struct that
+		// is not the struct we were given. Walk down from the top.
+		goField := vaSrc
+		for _, p := range det.EmbedPath {
+			goField = goField.Field(p.ChildFieldNum)
+		}
 		val, err := fillHashHelper(goField.Interface(), 0, env, false)
 		if err != nil {
 			//Q("got err='%s' back from fillHashhelper", err)
